@@ -212,6 +212,7 @@ def one_round(n, rnd, rng, tcp, shared=False):
             net.register(ADDR, srv)
             finished = run({'aet': 'SRV', 'address': ADDR[0], 'port': ADDR[1]})
             net.wait_all(60)
+            NETS.append(net)
             by_client = {rec['client']: rec for rec, _ in results.values()}
             for link in net.links:
                 r_pdus = R.pdus_of(link['log'], 'R')
@@ -242,6 +243,7 @@ def one_round(n, rnd, rng, tcp, shared=False):
 
 
 DEST_ADDR = ('dest.example', 104)
+NETS = []          # the simulated networks of the rounds played (for the life-cycle validation of every association)
 
 
 def move_round(n, rnd, rng):
@@ -299,6 +301,7 @@ def move_round(n, rnd, rng):
             t.join(120)
         finished = all(not t.is_alive() for t in ths)
         net.wait_all(60)
+        NETS.append(net)
     cases = [{'kind': 'assoc', 'a': rec} for _, (rec, _) in sorted(results.items())]
     expected = [{'client': 'C%02d' % i, 'inst': '1.2.3.%d.%d' % (i + 1, rnd * 100 + 50 + k)} for i in range(n) for k in range(nsub)]
     cases.append({'kind': 'global', 'g': {'sent': expected, 'allSent': expected,
@@ -317,6 +320,30 @@ def main(tier='quick'):
     plan = [(8, False, False), (8, True, False), (6, False, True)] if tier == 'quick' else \
         [(16, False, False)] * 6 + [(32, False, False)] * 2 + [(16, True, False)] * 4 + [(48, True, False)] + [(8, False, True)] * 4 + [(8, True, True)] * 2
     cases = []
+    from . import lifetap
+    del NETS[:]
+    tap = lifetap.LifeTap()
+    tap.__enter__()
+    try:
+        cases = rounds(v, plan, rng, tier)
+    finally:
+        tap.__exit__(None, None, None)
+    # every association of every round, on its own: its three logs must be a behaviour of AssocLife.tla - whatever the
+    # other associations of the entity were doing at the time
+    obs = [o for n in NETS for o in tap.cases(n) if o['library_acceptor']]
+    lres, lstats = lifetap.validate(obs)
+    for o, r in zip(obs, lres):
+        if not r[0]:
+            v.report({'site': 'whole-stack', 'clause': 'association-is-a-behaviour-of-the-life-cycle-model-on-its-own', 'why': (r[1] or ['unexplained'])[0]},
+                     '%s (matched %d of %d): requesting thread %s | accepting thread %s | requestor wrote %s | acceptor wrote %s' % (
+                         ', '.join(r[1]) or 'no behaviour of AssocLife explains the observation', r[2], r[3],
+                         [(e['ev'], e.get('res'), e.get('f'), e.get('r')) for e in o['rq']][:30], [(e['ev'], e.get('res'), e.get('f'), e.get('r')) for e in o['ac']][:30],
+                         [(x['k'], x['f']) for x in o['r2a']][:30], [(x['k'], x['f']) for x in o['a2r']][:30]))
+    return finish_main(v, tier, own, shared_mc, plan, cases, len(obs), lstats)
+
+
+def rounds(v, plan, rng, tier):
+    cases = []
     for rnd, (n, tcp, shared) in enumerate(plan):
         cs, finished = one_round(n, rnd, rng, tcp, shared)
         if not finished:
@@ -331,6 +358,10 @@ def main(tier='quick'):
         for c in cs:
             c['round'] = len(plan) + k
         cases.extend(cs)
+    return cases
+
+
+def finish_main(v, tier, own, shared_mc, plan, cases, n_life, lstats):
     res, stats = tlc.validate_traces('Trace_MultiAssoc', 'Trace_MultiAssoc.cfg', [[c] for c in cases], chunk=5000)
     for c, r in zip(cases, res):
         if r['reached'] != 1:
@@ -340,7 +371,8 @@ def main(tier='quick'):
             v.report({'site': 'whole-stack', 'clause': clause}, '%s (round %d): %s' % (clause, c['round'], str(what)[:700]), replay={'round': c['round']})
     ev = {'tier': tier, 'level': 'model_checking',
           'coverage': {'states': own.distinct + shared_mc.distinct, 'transitions': own.generated + shared_mc.generated,
-                       'traces_validated_against_impl': len(cases), 'rounds': len(plan), 'clients_per_round': [p[0] for p in plan], 'rounds_with_one_shared_requesting_entity': len([p for p in plan if p[2]]),
+                       'traces_validated_against_impl': len(cases) + n_life, 'associations_validated_against_AssocLife': n_life,
+                       'life_cycle_validation_states': lstats['states'], 'rounds': len(plan), 'clients_per_round': [p[0] for p in plan], 'rounds_with_one_shared_requesting_entity': len([p for p in plan if p[2]]),
                        'associations_observed': len([c for c in cases if c['kind'] == 'assoc']),
                        'samples': [cases[0]], 'exhaustive': False},
           'assumptions': ['real threads: the OS chooses the interleavings; a barrier guarantees that all associations of a round overlap',
